@@ -335,14 +335,17 @@ theorem C17_disjunction_as_options_same_target (idx : Int) (ss : Schemas) (o : O
     (h : disjunctionAsOptionsAction idx ss o = .ok out) :
     ∀ o' ∈ out.opts, o'.assignments.map (·.path) = o.assignments.map (·.path) := by
   unfold disjunctionAsOptionsAction at h
-  by_cases hneg : idx < 0
-  · simp [hneg, unchanged] at h; subst h; simp
-  · simp only [hneg] at h
-    cases ht : o.args[idx.toNat]? with
-    | none => simp [ht, unchanged] at h; subst h; simp
-    | some target =>
-      simp only [ht] at h
-      exact disjunctionOnTarget_paths ss o idx.toNat target out (by simpa using h)
+  by_cases he : o.args.isEmpty = true
+  · simp [he, unchanged] at h; subst h; simp
+  · simp only [he] at h
+    by_cases hneg : idx < 0
+    · simp [hneg, unchanged] at h; subst h; simp
+    · simp only [hneg] at h
+      cases ht : o.args[idx.toNat]? with
+      | none => simp [ht, unchanged] at h; subst h; simp
+      | some target =>
+        simp only [ht] at h
+        exact disjunctionOnTarget_paths ss o idx.toNat target out (by simpa using h)
 
 /-- `disjunction_as_options` with an `argument_index` outside the option's arguments leaves the option
     alone (since /repo 423e7f3); before, `option.Args[argumentIndex]` panicked — kept as a checked
@@ -351,12 +354,14 @@ theorem C17_disjunction_index_out_of_range_unchanged (idx : Int) (ss : Schemas) 
     (h : idx < 0 ∨ o.args.length ≤ idx.toNat) :
     disjunctionAsOptionsAction idx ss o = .ok { opts := [o], writes := [] } := by
   unfold disjunctionAsOptionsAction
-  by_cases hneg : idx < 0
-  · simp [hneg, unchanged]
-  · rcases h with h | h
-    · exact absurd h hneg
-    · have : o.args[idx.toNat]? = none := List.getElem?_eq_none_iff.2 h
-      simp [hneg, this, unchanged]
+  by_cases he : o.args.isEmpty = true
+  · simp [he, unchanged]
+  · by_cases hneg : idx < 0
+    · simp [he, hneg, unchanged]
+    · rcases h with h | h
+      · exact absurd h hneg
+      · have : o.args[idx.toNat]? = none := List.getElem?_eq_none_iff.2 h
+        simp [he, hneg, this, unchanged]
 
 theorem C17_disjunction_index_out_of_range_panicked_before_fix :
     (match disjunctionAsOptionsActionPreFix 2 [] { name := "a", args := [{ name := "x", ty := .scalar "string" .nil [] {} }] } with
